@@ -2,6 +2,7 @@
 From Coq Require Import List NArith ZArith Bool Strings.Byte Strings.String.
 Import ListNotations.
 Require Import Params Iauth IauthFacts.
+Require PlusX.
 Local Open Scope list_scope.
 
 (* a refusal from an awaited service rejects the client with exactly that text, and nothing else happens in the step *)
@@ -44,3 +45,23 @@ Theorem challenges_relayed_verbatim : forall c tb r svcn tx slot t,
   (prefix (S_ "AGAIN ") tx = false -> prefix (S_ "MORE ") tx = true -> exists rest, snd (fst (reply c tb r svcn (Some tx))) = oc x43 r (S_ " :" ++ skipn 5 tx) :: rest).
 Proof. exact relay_verbatim. Qed.
 Print Assumptions challenges_relayed_verbatim.
+
+(* "+x is sent when such a client asked for host hiding": an M line is written by a reply iff the reply is a stamped OK from an
+   awaited non-dronecheck service and the client asked for hiding (+x or +!); it is then exactly `M <id> <addr> <port> :+x` for this
+   client, written first, and no other M line exists *)
+Theorem plus_x_exactly_when_asked : forall c tb r svcn tx slot t,
+  find_slot (slots tb) 0 svcn (refm r) = Some (slot, t) ->
+  let outs := snd (fst (reply c tb r svcn (Some tx))) in
+  let due := prefix (S_ "OK ") tx = true /\ nonempty (upto sp (skipn 3 tx)) = true /\ is_drone t = false /\ hh r || ho r = true in
+  ((exists i a p rest, In (OC x4d i a p rest) outs) <-> due) /\
+  (due -> exists rest, outs = oc x4d r (S_ " :+x") :: rest /\ PlusX.noM rest) /\
+  (~ due -> PlusX.noM outs).
+Proof. exact PlusX.plus_x_exactly_when_asked. Qed.
+Print Assumptions plus_x_exactly_when_asked.
+
+(* "to that client only": every client-directed line a reply produces carries the id, address text and port of the client the reply
+   was matched to *)
+Theorem reply_lines_name_only_that_client : forall c tb r svcn text k i a p rest,
+  In (OC k i a p rest) (snd (fst (reply c tb r svcn text))) -> i = cid r /\ a = addr r /\ p = port r.
+Proof. exact PlusX.reply_lines_name_only_that_client. Qed.
+Print Assumptions reply_lines_name_only_that_client.
